@@ -210,9 +210,11 @@ class Script:
             kind = op.get('kind')
             if not getattr(w, '_started', True):
                 return {'ret': True}         # never run: there is no child
-            if kind in ('T', 'PT'):
-                return {'ret': not w._child.is_alive()}
             dl = time.time() + op.get('within', 0)
+            if kind in ('T', 'PT'):
+                while w._child.is_alive() and time.time() < dl:
+                    time.sleep(0.002)
+                return {'ret': not w._child.is_alive()}
             while True:
                 g = pid_gone(w.pid)
                 if g or time.time() >= dl:
